@@ -136,6 +136,18 @@ def run_case(case, drv):
             if sorted(short) != sorted(lang):
                 res.violation("get_words", "unbounded enumeration misses or invents short words")
             elif sorted(model) != sorted(got[1]):
-                res.corr_break("get_words", "unbounded multiset differs from model",
-                               detail={"impl": got[1][:10], "model": model[:10]})
+                # the model's unbounded enumeration is proved exact (getWords_exact_unbounded): decide the words
+                # on which the two lists differ with the independent membership oracle
+                miss = [w for w in model if w not in got[1]][:6]
+                extra = [w for w in got[1] if w not in model][:6]
+                mem = drv.call("cfg.member", G=g, words=miss + extra) if (miss or extra) else []
+                if any(m is True for m in mem[:len(miss)]):
+                    res.violation("get_words", "unbounded enumeration of a finite language misses a member word",
+                                  detail={"missing": [w for w, m in zip(miss, mem) if m], "yielded": len(got[1])})
+                elif any(m is False for m in mem[len(miss):]):
+                    res.violation("get_words", "unbounded enumeration yields a word that is not generated",
+                                  detail={"extra": [w for w, m in zip(extra, mem[len(miss):]) if m is False]})
+                else:
+                    res.corr_break("get_words", "unbounded multiset differs from model",
+                                   detail={"impl": got[1][:10], "model": model[:10]})
     return res
